@@ -8,6 +8,6 @@ F(r, w, a, t) == [read |-> r, write |-> w, append |-> a, trunc |-> t]
 MCFlagSets == {F(TRUE, FALSE, FALSE, FALSE), F(FALSE, TRUE, FALSE, FALSE), F(TRUE, TRUE, FALSE, FALSE),
                F(FALSE, TRUE, TRUE, FALSE), F(TRUE, TRUE, TRUE, FALSE), F(TRUE, TRUE, FALSE, TRUE), F(FALSE, TRUE, FALSE, TRUE)}
 Bounded == n <= 4
-MCView == <<data, pos, fl>>
+MCView == <<data, pos, fl, stored>>
 
 =============================================================================
